@@ -54,7 +54,10 @@ View == <<tree, schema, db, dbSchema, alive, Len(hist)>>
 
 CONSTANTS MaxOps, Emit,
           FixPrefix,        \* folder removal compares path components (fix 25efe9b) instead of string prefixes
-          FixSourceFilter   \* single-file events use the batch compile's source-file filter (fix 1fd4fb4)
+          FixSourceFilter,  \* single-file events use the batch compile's source-file filter (fix 1fd4fb4)
+          FixBoundaryMoves, \* Name(To) / Name(From) events (something moved into / out of the watched paths) are handled like a
+                            \* creation / removal; the pinned code dropped them
+          FixSchemaRename   \* a rename ONTO the schema path (atomic save) re-reads the schema; the pinned code did nothing
 
 Exists(t, f) == t[f] # None
 FolderExists(t, d) == \E f \in InFolder(d) : Exists(t, f)
@@ -90,9 +93,30 @@ HandleEvent(st, t, sch, e) ==
         [f \in FilePaths |-> IF f \in InFolder(d) /\ IsSourceExt(f) /\ Exists(t, f) THEN t[f] ELSE d0[f]]
       folderHasBin(d) == \E f \in InFolder(d) : IsSourceExt(f) /\ t[f] = "bin"
   IN
-  IF e.p = "schema" THEN
+  IF e.k = "rename" /\ e.q = "schema" THEN
+       \* categorised by the TARGET: a schema event; handle_update_schema, Rename with target = schema path
+       IF FixSchemaRename THEN [st EXCEPT !.dbSchema = sch]
+       ELSE [st EXCEPT !.devs = IF st.dbSchema # sch THEN @ \cup {"DevSchemaRenameIgnored"} ELSE @]
+  ELSE IF e.p = "schema" THEN
        IF e.k \in {"create", "modify"} THEN [st EXCEPT !.dbSchema = sch]
        ELSE [st EXCEPT !.dbSchema = None, !.err = TRUE, !.devs = @ \cup {"DevSchemaRemovalEndsWatcher"}]
+  ELSE IF e.k \in {"rename_to", "rename_from"} /\ ~FixBoundaryMoves THEN
+       \* process_modify_event: `_ => None` -- the event is dropped
+       [st EXCEPT !.devs = @ \cup {"DevBoundaryMoveIgnored"}]
+  ELSE IF e.k = "rename_to" THEN
+       \* CreateOrModify(path): a file is read (single-file filter), a folder is scanned
+       IF isFile(e.p) THEN
+            IF ~IsSourceExt(e.p) THEN st
+            ELSE IF ReadFile(t, e.p) = "bin" THEN [st EXCEPT !.err = TRUE, !.devs = @ \cup {"DevNonUtf8EndsWatcher"}]
+            ELSE [st EXCEPT !.db[e.p] = t[e.p]]
+       ELSE IF isDir(e.p) THEN
+            IF folderHasBin(e.p) THEN [st EXCEPT !.err = TRUE, !.devs = @ \cup {"DevNonUtf8EndsWatcher"}]
+            ELSE [st EXCEPT !.db = readFolder(st.db, e.p)]
+       ELSE st
+  ELSE IF e.k = "rename_from" THEN
+       \* Remove(path); the path is gone, so it is categorised as a folder: removal of everything under it
+       IF isFile(e.p) THEN [st EXCEPT !.db[e.p] = None]
+       ELSE [st EXCEPT !.db = removePrefix(st.db, e.p)]
   ELSE IF e.k \in {"create", "modify"} THEN
        \* categorize: existing file -> source file, CreateOrModify -> read_file without extension filter
        IF isFile(e.p) THEN
@@ -111,10 +135,12 @@ HandleEvent(st, t, sch, e) ==
                                 THEN @ \cup {"DevStringPrefixRemoval"} ELSE @]
   ELSE \* rename from e.p to e.q, categorised by the TARGET
        IF isFile(e.q) /\ FixSourceFilter THEN
-            IF ~IsSourceExt(e.q) THEN [st EXCEPT !.db[e.p] = None]
+            \* (the source may be a path outside the modelled universe, e.g. x.ts.tmp: nothing is tracked under it)
+            LET dropped == IF e.p \in FilePaths THEN [st.db EXCEPT ![e.p] = None] ELSE st.db IN
+            IF ~IsSourceExt(e.q) THEN [st EXCEPT !.db = dropped]
             ELSE IF ReadFile(t, e.q) = "bin"
-                 THEN [st EXCEPT !.db[e.p] = None, !.err = TRUE, !.devs = @ \cup {"DevNonUtf8EndsWatcher"}]
-                 ELSE [st EXCEPT !.db[e.p] = None, !.db[e.q] = t[e.q]]
+                 THEN [st EXCEPT !.db = dropped, !.err = TRUE, !.devs = @ \cup {"DevNonUtf8EndsWatcher"}]
+                 ELSE [st EXCEPT !.db = [dropped EXCEPT ![e.q] = t[e.q]]]
        ELSE IF isFile(e.q) THEN
             IF st.db[e.p] # None
             THEN IF ReadFile(t, e.q) = "bin"
@@ -218,6 +244,36 @@ MvDirThenEdit(c) ==       \* mv src/a src/c + edit of src/c/x.ts: the modify is 
                                 ELSE tree[f]],
            schema, << [k |-> "rename", p |-> Da, q |-> Dc], Ev("modify", F1) >>)
 
+\* ---- moves across the boundary of the watched paths and atomic saves (event lists as the real debouncer delivers them:
+\*      h_notify scenarios movein / moveout / moveindir / moveoutdir / atomic-over-existing) -----------------------------
+MoveIn(f, c) ==           \* mv <outside>/x f : one Name(To) event
+  /\ Guard /\ ~Exists(tree, f) /\ c # "bin"
+  /\ (f \in InFolder(Dc) => FolderExists(tree, Dc))
+  /\ Apply([op |-> "movein", p |-> f, c |-> c, evs |-> <<>>], [tree EXCEPT ![f] = c], schema, << Ev("rename_to", f) >>)
+
+MoveOut(f) ==             \* mv f <outside>/ : one Name(From) event
+  /\ Guard /\ Exists(tree, f)
+  /\ Apply([op |-> "moveout", p |-> f, evs |-> <<>>], [tree EXCEPT ![f] = None], schema, << Ev("rename_from", f) >>)
+
+MoveOutFolder(d) ==       \* mv src/a <outside>/ : one Name(From) event for the folder
+  /\ Guard /\ FolderExists(tree, d)
+  /\ Apply([op |-> "moveout_dir", p |-> d, evs |-> <<>>],
+           [f \in FilePaths |-> IF f \in InFolder(d) THEN None ELSE tree[f]], schema, << Ev("rename_from", d) >>)
+
+MoveInFolder(c) ==        \* mv <outside>/c src/c (holding x.ts and n.md) : one Name(To) event for the folder
+  /\ Guard /\ ~FolderExists(tree, Dc) /\ c # "bin"
+  /\ Apply([op |-> "movein_dir", p |-> Dc, c |-> c, evs |-> <<>>],
+           [tree EXCEPT ![C1] = c, ![C5] = c], schema, << Ev("rename_to", Dc) >>)
+
+AtomicSaveFile(f, c) ==   \* write f.tmp in an earlier window, mv f.tmp f : Name(Both) from an untracked non-source path onto f
+  /\ Guard /\ FixSourceFilter /\ Exists(tree, f) /\ tree[f] # c /\ c # "bin"
+  /\ Apply([op |-> "atomic", p |-> f, c |-> c, evs |-> <<>>], [tree EXCEPT ![f] = c], schema,
+           << [k |-> "rename", p |-> f \o ".tmp", q |-> f] >>)
+
+AtomicSaveSchema(sc) ==   \* the same for the schema file
+  /\ Guard /\ schema # None /\ schema # sc /\ sc # None
+  /\ Apply([op |-> "schema_atomic", c |-> sc, evs |-> <<>>], tree, sc, << [k |-> "rename", p |-> "schema.tmp", q |-> "schema"] >>)
+
 Gc ==     \* a garbage collection between two batches changes nothing observable
   /\ Guard /\ Len(hist) > 0 /\ hist[Len(hist)].op # "gc"
   /\ Apply([op |-> "gc", evs |-> <<>>], tree, schema, <<>>)
@@ -233,6 +289,11 @@ Next ==
   \/ \E d \in {Da, Dab} : DeleteFolder(d)
   \/ \E s \in {"s1", "s2"} : EditSchema(s)
   \/ DeleteSchema
+  \/ \E f \in {F2, F6}, c \in {"v2"} : MoveIn(f, c)
+  \/ \E f \in {F1, F3} : MoveOut(f)
+  \/ MoveOutFolder(Da) \/ MoveInFolder("v2")
+  \/ \E f \in {F1}, c \in {"v2"} : AtomicSaveFile(f, c)
+  \/ \E s \in {"s1", "s2"} : AtomicSaveSchema(s)
 
 Spec == Init /\ [][Next]_vars
 
